@@ -29,7 +29,10 @@ RULE_ADDED = (
               'third of the shards under python -O '
               ' '
               'Round 8: documents whose one-line size sits just below a power of two / ten (1 K'
-              'iB .. 4 MiB) so that the saved, indented form sits above it. ')
+              'iB .. 4 MiB) so that the saved, indented form sits above it. '
+              ' '
+              'Round 10: non-finite numbers and huge integers as names, signer references and v'
+              'alues. ')
 RULE = RULE + " " + RULE_ADDED.strip()
 ASSUMPTIONS = [
     "any exception out of from_jsonfile counts as 'reports an error' (the admin tools turn "
@@ -50,7 +53,9 @@ class Stuck(Exception):
     pass
 
 VALUES = ["<absent>", None, True, 0, 1, 2, 3, 1.5, "", "root", "sgx_root", "device", "ui",
-          "quote", "zz", "00", "abcd", [], ["ui"], {}, {"name": "ui"}, "attestation", "signer"]
+          "quote", "zz", "00", "abcd", [], ["ui"], {}, {"name": "ui"}, "attestation", "signer",
+          # numbers a JSON parser hands over as non-finite (1e999, -1e999, NaN) or huge
+          float("inf"), float("-inf"), float("nan"), 10 ** 40, -1]
 
 
 SIZE_MARKS = sorted([2 ** k for k in range(10, 23)] + [10 ** 4, 10 ** 5, 10 ** 6, 65535,
@@ -75,7 +80,7 @@ def mutate(rng, doc, version):
         k = rng.choice(["top-field", "el-field", "dup-el", "cycle", "self-signed", "dangling",
                         "target", "drop-el", "dup-name", "nonstring-name", "type", "grow",
                         "elements-kind", "retarget-any", "hex-resize", "hex-resize",
-                        "unicode-name", "root-named-element"])
+                        "unicode-name", "root-named-element", "nonfinite-number"])
         els = d.get("elements")
         ok_els = isinstance(els, list) and els and all(isinstance(e, dict) for e in els)
         if k == "top-field":
@@ -107,6 +112,29 @@ def mutate(rng, doc, version):
             if rng.random() < 0.3 and isinstance(d.get("targets"), list):
                 d["targets"].append(root_name)
             labels.append("root-named-element")
+        elif k == "nonfinite-number" and ok_els:
+            # a number where a name is meant, of the kind a JSON parser turns into a
+            # non-finite float (1e999, -1e999, NaN) or a huge integer: as the signer
+            # reference of an extra element that no target depends on, or as an element's
+            # name with every reference to it
+            num = rng.choice([float("inf"), float("-inf"), float("nan"), 10 ** 400, 1e308])
+            if rng.random() < 0.5:
+                e = copy.deepcopy(rng.choice(els))
+                e["name"] = "spare"
+                e["signed_by"] = num
+                els.insert(rng.randrange(len(els) + 1), e)
+            else:
+                if num != num:
+                    num = float("inf")     # (as a name: not NaN, which equals nothing)
+                e = rng.choice(els)
+                old = e.get("name")
+                for x in els:
+                    if x.get("signed_by") == old:
+                        x["signed_by"] = num
+                e["name"] = num
+                if isinstance(d.get("targets"), list):
+                    d["targets"] = [num if t == old else t for t in d["targets"]]
+            labels.append("nonfinite-number")
         elif k == "unicode-name" and ok_els:
             # a name (and the references to it) with characters outside ASCII: accented,
             # astral, NUL, a lone surrogate (valid JSON escape, not encodable as UTF-8)
@@ -306,6 +334,14 @@ def run_doc(acc, steps, doc, labels, version, root, tmpdir, case):
                       case)
         return
     for t in doc["targets"]:
+        if isinstance(t, float) and t != t:
+            # (a NaN target: the loaded certificate holds another NaN object, and NaN
+            # never equals NaN - look for any NaN key)
+            keys = [k_ for k_ in res if isinstance(k_, float) and k_ != k_]
+            if not keys:
+                acc.violation("no-verdict-for-target", {"target": "NaN", "labels": labels}, case)
+                return
+            continue
         if t not in res:
             acc.violation("no-verdict-for-target", {"target": t, "labels": labels}, case)
             return
@@ -333,7 +369,7 @@ def run_doc(acc, steps, doc, labels, version, root, tmpdir, case):
         acc.violation("verdicts-change-after-save-and-load",
                       {"before": norm(res), "after": norm(res2), "labels": labels}, case)
     acc.distinct.add("v%s|%s|loaded|%s" % (version, ",".join(sorted(set(labels))),
-                                           "".join("T" if res[t][0] else "F"
+                                           "".join("T" if t in res and res[t][0] else "F"
                                                    for t in doc["targets"])[:6]))
 
 
@@ -352,15 +388,18 @@ def norm(res):
         if len(v) > 1 and isinstance(v[1], dict):
             v[1] = {kk: (vv.get_raw_data().hex() if hasattr(vv, "get_raw_data") else vv)
                     for kk, vv in v[1].items()}
-        out[str(k)] = v
+        out[str(k)] = repr(v)      # (repr: NaN compares unequal to itself)
     return out
 
 
 def run_shard(spec, acc):
     env.setup()
+    if spec.get("shard", spec.get("seed", 0)) % 4 >= 2 and env.on_other_fs():
+        acc.count("shards_with_files_on_another_file_system_than_the_temp_directory")
     from admin.certificate import HSMCertificateRoot, HSMCertificateV2ElementX509
     rng = random.Random(spec["seed"])
-    tmpdir = env.mkdtemp("c16", spec.get("shard", spec.get("seed", 0)) % 2 == 1)
+    tmpdir = env.mkdtemp("c16", spec.get("shard", spec.get("seed", 0)) % 2 == 1,
+                         other_fs=spec.get("shard", spec.get("seed", 0)) % 4 >= 2)
     steps = Steps()
     steps.start()
     try:
